@@ -57,6 +57,25 @@ class InvertedBooleanCheckTransformer(LibcstResultTransformer):
             rpar=[*comparison.rpar, *updated_node.rpar],
         )
 
+    def leave_FormattedStringExpression(
+        self,
+        original_node: cst.FormattedStringExpression,
+        updated_node: cst.FormattedStringExpression,
+    ):
+        # `f"{{1, 2} != x}"` starts with an escaped brace: when dropping `not`
+        # leaves an expression that starts with `{`, keep it apart from the
+        # replacement field's own brace
+        if (
+            not updated_node.expression.deep_equals(original_node.expression)
+            and self.code(updated_node.expression).startswith("{")
+            and not self.code(original_node.expression).startswith("{")
+            and updated_node.whitespace_before_expression.empty
+        ):
+            return updated_node.with_changes(
+                whitespace_before_expression=cst.SimpleWhitespace(" ")
+            )
+        return updated_node
+
     def _invert_comparisons(
         self, comparison: cst.Comparison
     ) -> list[cst.ComparisonTarget] | None:
